@@ -345,6 +345,13 @@ func (runInfo *runInfoStruct) invokeLetSliceExpr(expr *ast.SliceExpr) {
 		item = item.Elem()
 	}
 
+	if item.Kind() == reflect.Array && !item.CanAddr() {
+		// an array value that is not addressable cannot be sliced by reflect, nor stored into
+		runInfo.err = newStringError(expr, "slice cannot be assigned")
+		runInfo.rv = nilValue
+		return
+	}
+
 	switch item.Kind() {
 
 	// Slice && Array
